@@ -21,8 +21,8 @@ CLAIMED = {
  "C06": ("Deductive proof for queue.Processor: the keyed priority queue invariant through all operations; execute calls the callback only with the head at pop time; not early; the loop is kicked whenever the earliest time got earlier; NO STRANDED ITEM: monitor invariant (queue non-empty and not stopped implies a loop is serving; the running slot is occupied only while a loop serves), the loop gives the slot back exactly once and, on the empty exit, under the lock (repaired defect); Close sends the stop signal on both of its paths (repaired), takes the slot for good and calls the join.",
          "Assumed: two channel-semantics facts (a non-blocking send on the 1-slot channel takes default only when the slot is occupied; a receive on a channel nobody sends on completes only after close), WaitGroup join semantics, container/heap, the callback keeps the processor's configuration. Exactly-once over whole histories is a paper composition; timer delivery is the clock's.",
          "DESIGN.md 0.3b/0.3c, section 6 C06"),
- "C07": ("Deductive proof of absence of panics for the entry points under contract: every index, slice, nil-dereference (incl. calls of nil function values), division, make, type-assertion and explicit-panic obligation generated from the SSA is discharged for all inputs; documented callee panics are excluded by proof; constructs outside the modelled subset are failing obligations, not footnotes; loops carry variants where stated; a nil key, a malformed PEM key block and trailing characters in an ISO-8601 duration are reported by the error (repaired defects). Bounded: termination of SpecSchedule.Next.",
-         "Assumes libspec contracts incl. their documented panics, address-space bound on lengths (2^56). Inputs are byte strings and values: readers that never make progress, self-containing configuration values, a foreign Put into the exported BufPool and hand-built key / certificate objects handed to the encoders are stated assumptions; every precondition of an exported function is listed in the evidence.",
+ "C07": ("Deductive proof of absence of panics for the entry points under contract: every index, slice, nil-dereference (incl. calls of nil function values), division, make, type-assertion and explicit-panic obligation generated from the SSA is discharged for all inputs; documented callee panics are excluded by proof; constructs outside the modelled subset are failing obligations, not footnotes; loops carry variants where stated; a nil key, a malformed PEM key block and trailing characters in an ISO-8601 duration are reported by the error (repaired defects); config.Decode's decode hook is under contract against an honest reflect model (no failed assertion, no reflect panic for any value and source type; nil and typed-nil values behind pointers and interfaces are never handed on, non-pointer decoder types are served through their pointer type: three repaired defects). Bounded: termination of SpecSchedule.Next.",
+         "Assumes libspec contracts incl. their documented panics, address-space bound on lengths (2^56). Inputs are byte strings and values: readers that never make progress, self-containing configuration values, a foreign Put into the exported BufPool and hand-built key / certificate objects handed to the encoders are stated assumptions; every precondition of an exported function is listed in the evidence; DecodeString implementations of destination types are the programmer's and assumed not to panic; mapstructure itself is assumed not to panic given a well-behaved hook.",
          "DESIGN.md section 6 C07"),
  "C08": ("Deductive proof of ownership and non-interference through package-level state: pooled buffers (enc/v1 BufPool, byteslicepool incl. []byte elements) are owned while used, released once, never returned to callers, zeroed to capacity; the logger registry maps different names to different loggers and sinks, hands out copies, and every access to a logger's entry happens under its lock (repaired race); cron's package tables are established by the initializer and written by nobody else (frames on every option, parser and logger helper).",
          "Data-race freedom as such is not in this family: lock-structured and frame-structured non-interference is what is proved. The cron table invariant at Parse's precondition is an assumption (no package invariants in the contract language); the scheduler part of cron is not covered.",
